@@ -187,6 +187,13 @@ def two_files_one_path(le, A, B):
                 out.append('get_scancode_licensing(path) knows %r, the file at that path lists %r' % (g[1][:6], want[:6]))
             if h[0] == 0 and h[1] != [e.get('license_key', '') for e in sidx]:
                 out.append('get_license_index(path) does not return the entries of the file at that path')
+            # both ready-made constructors given the path: what the builders make of the entries of that file
+            for getter, builder in (('get_scancode_licensing', 'build_licensing'), ('get_spdx_licensing', 'build_spdx_licensing')):
+                a = outcome_of(lambda: list(getattr(le, getter)(path).known_symbols), lambda x: x)
+                b = outcome_of(lambda: list(getattr(le, builder)(json.loads(json.dumps(sidx))).known_symbols), lambda x: x)
+                if a != b:
+                    out.append('%s(path) gives %r, %s(entries of the file at that path) gives %r'
+                               % (getter, a[1][:6] if a[0] == 0 else a, builder, b[1][:6] if b[0] == 0 else b))
         return out
     finally:
         if os.path.exists(path):
